@@ -319,7 +319,7 @@ def run_C02(ck):
             fields = ['verdict', 'out', 'pos', 'fl']
             orc = exact_oracle(s['out'])
         elif entry == 1:
-            line = 'raw_lzma2 ops=d:%s rd=%s' % (hx(s['bytes'] + trail), rd)
+            line = 'raw_lzma2 ctor=%s ops=d:%s rd=%s' % (rng.choice(['new', 'default']), hx(s['bytes'] + trail), rd)
             fields = ['res']
             exp = s['out']
             def orc(c, exp=exp):
@@ -381,6 +381,22 @@ def run_C03(ck):
             exp = open('/repo/tests/files/' + name[:-3], 'rb').read()
             cases.append({'line': 'xz_dec in=%s' % hx(raw), 'meta': {'file': name}, 'oracle': exact_oracle(exp), 'nontrivial': True})
             ck.count('repo_files')
+    # several LZMA2 filters in one block are decoded as a chain (leniency of lzma-rs, reproduced by the model)
+    def lzma2_raw(b):
+        out, first = b'', True
+        for i in range(0, len(b), 65536):
+            piece = b[i:i + 65536]
+            out += bytes([1 if first else 2]) + struct.pack('>H', len(piece) - 1) + piece; first = False
+        return out + b'\x00'
+    for k in range(12 if ck.tier == 'quick' else 80):
+        s = rng.choice(pool)
+        nf = rng.range(2, 4)
+        payload = s['bytes']
+        for _ in range(nf - 1): payload = lzma2_raw(payload)
+        blk = XzBlock(payload, s['out'], nfilters=nf, with_packed=rng.chance(1, 2), with_unpacked=rng.chance(1, 2))
+        ck_ = rng.choice([0, 1, 4])
+        cases.append({'line': 'xz_dec in=%s' % hx(xz_file([blk], ck_)), 'meta': {'filters': nf, 'check': ck_}, 'oracle': exact_oracle(s['out']), 'nontrivial': True})
+        ck.count('chained_filters_%d' % nf)
     run_both(ck, cases)
     for c in cases:
         ck.note_case(c['line'], c['nontrivial'])
@@ -879,9 +895,23 @@ def run_C09(ck):
             desc = bad_copy(pbld, None)
             reqs.append('ref_lzma2 lenient=1 chunks=U1:%s/Z3:%d,%d,%d:0:%s' % (hx(pre), lc, lp, pb3, pbld.text()))
             metas.append({'api': 'lzma2', 'desc': desc, 'produced': pbld.n, 'before_reset': len(pre)})
+    for k in range(40 if quick else 300):
+        lc, lp, pb3 = rand_props(rng, lzma2=True)
+        pbld = ProgBuilder(None)
+        pbld.lit(rng.below(256))
+        for _ in range(rng.range(0, 6)): pbld.random_sym(rng, 3)
+        pbld.match(pick_dist(rng, pbld.maxd()), pick_len(rng))          # leaves the automaton in a state >= 7 with rep0 set
+        good = pbld.text()
+        pre = rng.bytes(rng.range(1, 3)) if rng.chance(1, 2) else b''   # fewer bytes than rep0 + 1 in most cases
+        reqs.append('ref_lzma2 chunks=Z3:%d,%d,%d:0:%s/U1:%s/Z0:-:0:L%d' % (lc, lp, pb3, good, hx(pre or b'\x00'), rng.below(256)))
+        metas.append({'api': 'lzma2_matched_literal', 'desc': 'matched-literal read after a dictionary reset without state reset', 'rep0': pbld.reps[0], 'after_reset': len(pre or b'x')})
     cases = []
     for enc, meta in zip(ref_encode(reqs), metas):
         if enc is None: raise InfraError('lenient reference encoder failed')
+        if meta['api'] == 'lzma2_matched_literal':
+            if meta['rep0'] <= meta['after_reset']: continue           # the read is inside the new history: legal, not a C09 case
+            cases.append({'line': 'lzma2_dec in=%s' % hx(enc[0]), 'meta': meta, 'good_out': enc[1]})
+            ck.count('api_lzma2_matched_literal'); continue
         b, out = enc
         if meta['api'] == 'lzma':
             line = 'lzma_dec opt=rfh in=%s' % hx(b)
